@@ -215,6 +215,22 @@ def impl_masked(v):
                       ("both", {"lineage": True, "tracklet": True}),
                       ("all", {"lineage": True, "tracklet": True, "graph": False, "sphere": True, "ellipsoid": True})):
         out[name] = run_vd(masked_geff(v), cfg)
+    # the same in-memory geff object validated repeatedly (as after a validated read): every call
+    # must give the verdict of a fresh object, and no array of the geff may be modified
+    g = masked_geff(v)
+
+    def snap():
+        arrs = [g["node_ids"], g["edge_ids"]]
+        for pr in g["node_props"].values():
+            arrs.append(pr["values"])
+            if pr["missing"] is not None:
+                arrs.append(pr["missing"])
+        return snapshot(*arrs)
+    before = snap()
+    seq = [("lin", {"lineage": True}), ("lin", {"lineage": True}), ("both", {"lineage": True, "tracklet": True}),
+           ("trk", {"tracklet": True}), ("lin", {"lineage": True})]
+    out["history"] = [[name, run_vd(g, cfg)] for name, cfg in seq]
+    out["history_modified"] = snap() != before
     return out
 
 
@@ -509,6 +525,16 @@ def run(ck: common.Check):
             ck.fail("C14:masked-lineage-ids", f"validate_data(lineage=True) with a missing mask on the lineage ids gave {r['lin']}, "
                     f"the definition on the nodes that carry an id says {want_lin}", {"masked": v}, r, want_lin)
             continue
+        if r["history_modified"]:
+            ck.fail("C14:validator-modifies-input", "validate_data modified an array of the in-memory geff it validated "
+                    f"(masks: lineage {v['lin_missing']}, tracklet {v['trk_missing']})", {"masked": v}, r, None)
+            continue
+        bad_steps = [(i, name, got) for i, (name, got) in enumerate(r["history"]) if got != r[name]]
+        if bad_steps:
+            i, name, got = bad_steps[0]
+            ck.fail("C14:history-dependent-verdict", f"call {i} ({name}) on the SAME in-memory geff object gave {got}, a fresh object gives {r[name]} "
+                    f"(masks: lineage {v['lin_missing']}, tracklet {v['trk_missing']})", {"masked": v}, r, r[name])
+            continue
         if r["trk"] not in ("ok", "ValueError"):
             continue  # tracklet validation itself is C13's business
         want_both = "ValueError" if (r["trk"] == "ValueError" or not l_valid) else "ok"
@@ -566,6 +592,7 @@ def replay(rp):
         want_lin = "ok" if l_valid else "ValueError"
         want_both = "ValueError" if (r["trk"] == "ValueError" or not l_valid) else "ok"
         ok = r["lin"] == want_lin and (r["trk"] not in ("ok", "ValueError") or (r["both"] == want_both and r["all"] == want_both))
+        ok = ok and not r["history_modified"] and all(got == r[name] for name, got in r["history"])
         print(json.dumps({"case": v, "impl": r, "expected": {"lin": want_lin, "both": want_both}}))
         print("REPLAY: property holds on this input" if ok else "REPLAY: property FAILS on this input")
         return 0 if ok else 1
